@@ -1,4 +1,6 @@
+import ElvModel.C00.Driver
 import ElvModel.C37.Driver
 import ElvModel.C37.Model
 import ElvModel.Go.Basic
 import ElvModel.Go.Driver
+import ElvModel.Go.Utf8
